@@ -214,6 +214,10 @@ func (f *FrameHeader) readFrom(br *bufio.Reader) (int64, error) {
 		n, err = io.ReadFull(br, f.payload[:n])
 		if err != nil {
 			ReleaseFrame(f.fr)
+			// The body has gone back to its pool: forget it, or the caller
+			// releases it a second time through Body().
+			f.fr = nil
+
 			return 0, err
 		}
 
